@@ -2,7 +2,7 @@
    Scope of the proved core: BOOL and the eight integer kinds, assignment, IF/ELSIF, CASE, FOR,
    WHILE, REPEAT, EXIT, CONTINUE; programs accepted by the strict discipline T (Model/StTyping.v). *)
 From Coq Require Import ZArith List Bool.
-From TP Require Import Model.StCore Model.StTyping Proofs.StProofs Model.StCalls Proofs.StCallsProofs.
+From TP Require Import Model.StCore Model.StTyping Proofs.StProofs Model.StCalls Proofs.StCallsProofs Proofs.StCallsTyping.
 Import ListNotations.
 Open Scope Z_scope.
 
@@ -100,6 +100,27 @@ Theorem fb_call_sound : forall o strict,
   tstmt strict G il (inline_call f base en ins outs eno) = true -> (il = true -> depth <> 0%nat) ->
   sres_ok G depth (exec o fuel depth s (inline_call f base en ins outs eno)).
 Proof. exact (fun o strict H1 H2 H3 H4 G fuel depth s f base en ins outs eno il => exec_sound o strict H1 H2 H3 H4 G fuel depth s (inline_call f base en ins outs eno) il). Qed.
+(* the typing rule for calls: a body T-typed under the block's own declarations ([EN] inputs outputs [ENO] locals), arguments of the
+   inputs' types and targets of the outputs' types give a T-typed statement wherever the instance lies in the caller's environment -
+   so type_soundness covers programs with function-block calls *)
+Theorem fb_call_typing_rule : forall strict pre post f tin tout tloc,
+  length tin = fb_nin f -> length tout = fb_nout f ->
+  forall en ins outs eno il,
+  let G := pre ++ fb_env f tin tout tloc ++ post in
+  tblock strict (fb_env f tin tout tloc) false (fb_body f) = true ->
+  (forall e, en = Some e -> tbool strict G e = true) ->
+  Forall2 (fun e t => texpr strict G t e = true) ins tin ->
+  Forall2 (fun o t => match o with Some x => nth_error G x = Some t | None => True end) outs tout ->
+  (forall x, eno = Some x -> nth_error G x = Some TBool) ->
+  tstmt strict G il (inline_call f (length pre) en ins outs eno) = true.
+Proof. exact inline_call_typed_l. Qed.
+Theorem fb_call_typing_nonvacuous :
+  let pre := [TInt KInt; TInt KInt; TBool; TBool] in
+  let tin := [TInt KInt] in let tout := [TInt KInt] in let tloc := [TInt KInt] in
+  tblock true (fb_env demo_fb tin tout tloc) false (fb_body demo_fb) = true /\
+  tstmt true (pre ++ fb_env demo_fb tin tout tloc ++ []) false (inline_call demo_fb (length pre) (Some (EVar 3)) [EVar 0] [Some 1%nat] (Some 2%nat)) = true /\
+  store_ok (pre ++ fb_env demo_fb tin tout tloc ++ []) demo_store = true.
+Proof. exact call_typing_demo. Qed.
 Theorem fb_call_nonvacuous :
   wr_block (fun x => Nat.ltb x (fb_size demo_fb)) (fb_body demo_fb) = true /\
   exec demo_opts 10 0 demo_store (inline_call demo_fb 4 (Some (EVar 3)) [EVar 0] [Some 1%nat] (Some 2%nat)) =
@@ -121,3 +142,4 @@ Print Assumptions return_in_program_body_refuted.
 Print Assumptions negative_literal_in_unsigned_context_refuted.
 Print Assumptions fb_call_changes_only_instance_and_outputs.
 Print Assumptions fb_call_sound.
+Print Assumptions fb_call_typing_rule.
